@@ -1139,6 +1139,10 @@ func (e *e4Engine) bounds(in ssa.Instruction, x ssa.Value, idx, lo, hi ssa.Value
 			e.close(in, key, by, "", false)
 			return
 		}
+		if by, ok := pr.proveSplitIndex(in, x, idx); ok {
+			e.close(in, key, by, "", false)
+			return
+		}
 	} else {
 		if by, ok := pr.proveSlice(in, x, lo, hi); ok {
 			e.close(in, key, by, "", false)
